@@ -469,6 +469,21 @@ def imul_rules(ctx, rid):
                   and call_name(n.value) == 'clear']
         # the dict branch: statements dominated by isinstance(other, dict) true edge
         oth = im.params[1]
+        # the operand is the operand throughout: rebinding it (other than to a copy / snapshot of itself) decides the product
+        # from a reading of its own (e.g. "a dict with only a constant is that scalar" - and what is the empty dict?)
+        reb = [n for n in ast.walk(im.node) if isinstance(n, ast.Assign) and any(is_name(t, oth) for t in n.targets)]
+        okreb = True
+        for n in reb:
+            v = n.value
+            copyish = (isinstance(v, ast.Call) and ((isinstance(v.func, ast.Attribute) and v.func.attr == 'copy' and is_name(v.func.value, oth)) or
+                                                    (len(v.args) == 1 and is_name(v.args[0], oth) and not v.keywords and
+                                                     src(v.func).split('.')[-1] in ('dict', 'type(%s)' % oth, '__class__'))))
+            if not copyish:
+                okreb = False
+        ctx.inst(rid, im, reb[0] if reb else 'operand of __imul__', okreb,
+                 "the right operand is used as given" if okreb else
+                 "`%s` replaces the right operand of the product by a value derived from it: the shortcut's reading of degenerate "
+                 "operands (an empty dict is the zero polynomial, not 1) then decides the product" % src([n for n in reb][0])[:70])
         dict_loops = []
         for lp in [n for n in g.stmts() if isinstance(n, ast.For)]:
             facts = []
